@@ -77,7 +77,7 @@ Definition bb_readbits (elt : list Z) (s : bbuf) (count0 : Z) : bbuf * Z :=
 (** Hbitseek in read mode *)
 Definition bb_seek (elt : list Z) (s : bbuf) (byte bit : Z) : option bbuf :=
   if (byte <? 0) || (bit <? 0) || (BITNUM - 1 <? bit) || (bb_max s <? byte) then None else
-  let new_block := (byte <? bb_block s) || (bb_block s + BITBUF_SIZE <=? byte) in
+  let new_block := negb (hbitseek_new_block byte (bb_block s) =? 0) in     (* the test itself is regenerated from hbitio.c *)
   let s1 :=
     if new_block then
       let seek_pos := (byte / BITBUF_SIZE) * BITBUF_SIZE in
